@@ -254,7 +254,9 @@ pub fn gen_config(rng: &mut Rng, samples: &[String], p: &CallSetParams) -> Confi
     } else {
         // large cohorts get at most two populations: the spectrum has (2n+1)^d cells
         let mut many = false;
-        let npop = if n > 40 {
+        let npop = if n > 400 {
+            1
+        } else if n > 40 {
             rng.range(1, 2)
         } else if n >= 9 && n <= 12 && rng.chance(1, 6) {
             // many small populations (3^9 .. 5^10 cells at most), every one of them used
@@ -523,7 +525,7 @@ pub fn pad_callset(callset: &mut CallSet, target: usize) {
 
 pub fn gen_callset(rng: &mut Rng, p: &CallSetParams) -> (CallSet, Config) {
     let samples = if p.big_cohort {
-        let n = *rng.pick(&[86usize, 87, 90, 100, 128, 129, 171, 172, 256, 300]);
+        let n = *rng.pick(&[86usize, 87, 90, 100, 128, 129, 171, 172, 256, 300, 520, 600, 1100]);
         (0..n).map(|i| format!("s{i}")).collect()
     } else {
         gen_samples(rng, p.max_samples)
